@@ -14,6 +14,10 @@ Times are decimal integers (the harness uses quarter seconds).
   trmkabs <ctor> <N|int>                    -> <state> | err:ValueError
   trinter <ctor> <ctor>                     -> <state> | err:ValueError
   trparse <string> <N|0|1>                  -> <state> | err:ValueError
+  trscript <ctorA> <eventsA|=> <ctorB|-> <eventsB|=> <op> <events|=>
+      op := ab (A.intersect(B)) | ba (B.intersect(A)) | mk<N|int> (A.make_absolute) | id (a copy of A),
+      applied after A and B have been shown their events; the further events go to the result
+                                            -> <0/1/r per event>|<state> | err:ValueError
 -/
 import FeVerif.Spec.TimeRange
 
@@ -111,6 +115,30 @@ def cmdTRInter (args : List String) : String :=
     | _, _ => "bad-args"
   | _ => "bad-args"
 
+def cmdTRScript (args : List String) : String :=
+  match args with
+  | [ca, ea, cb, eb, op, es] =>
+    match trCtor ca, trList trEvent ea, trList trEvent es with
+    | some a, some ea, some es =>
+      let a' := (a.runEvents ea).1
+      let res : Option (Except TRErr TimeRange) :=
+        if op == "id" then some (.ok a')
+        else if op.startsWith "mk" then (trOptInt (op.drop 2).toString).map fun p => a'.makeAbsolute p
+        else
+          match trCtor cb, trList trEvent eb with
+          | some b, some eb =>
+            let b' := (b.runEvents eb).1
+            if op == "ab" then some (a'.intersect b') else if op == "ba" then some (b'.intersect a') else none
+          | _, _ => none
+      match res with
+      | some (.ok r) =>
+        let out := r.runEvents es
+        String.join (out.2.map fun | some b => showBool b | none => "r") ++ "|" ++ showState out.1
+      | some (.error .valueError) => "err:ValueError"
+      | none => "bad-args"
+    | _, _, _ => "bad-args"
+  | _ => "bad-args"
+
 /-- The subset of `float()` syntax used by the harness: `[+-]digits[.digits]` with a value that is a multiple of
 0.25 (result in quarter units), `inf`, `-inf`; anything else is "raises ValueError". -/
 def fltQuarter (s : String) : Option FloatVal :=
@@ -158,6 +186,7 @@ def dispatchTimeRange (cmd : String) (args : List String) : Option String :=
   | "trmkabs" => some (cmdTRMkAbs args)
   | "trinter" => some (cmdTRInter args)
   | "trparse" => some (cmdTRParse args)
+  | "trscript" => some (cmdTRScript args)
   | _ => none
 
 end FeVerif
